@@ -1,6 +1,7 @@
 # -*- coding: utf-8 -*-
 from __future__ import annotations
 
+import asyncio
 import sys
 import traceback
 from enum import Enum
@@ -358,6 +359,12 @@ class Waiting(State):
             if self._missed_wakeup is not None:
                 missed, self._missed_wakeup = self._missed_wakeup, None
                 self._wake_up(*missed)
+            raise
+        except asyncio.CancelledError:
+            # The task executing this state was cancelled and that cancelled the future it was waiting for: arm the
+            # wait again, so that the state can be executed (and resumed) afterwards
+            if self._waiting_future.cancelled():
+                self._waiting_future = futures.Future()
             raise
 
         if result == NULL:
